@@ -31,7 +31,7 @@ let token_of_tuple (t : tuple) : string =
 
 let kind_of = function "c" -> KCounter | "g" -> KGauge | _ -> KHist
 let mk_cfg kind cap nl buckets variant =
-  { c_kind = kind_of kind; c_cap = (if cap = 0 then z_of_int 10000 else z_of_int cap);
+  { c_kind = kind_of kind; c_cap = eff_cap (z_of_int cap);
     c_nlabels = nat_of_int nl; c_buckets = buckets;
     c_variant = (if variant = "defective" then Defective else Repaired) }
 
@@ -55,9 +55,9 @@ type sstate = { mutable s : shared; mutable slots : href list; mutable subs : su
 let run_seq (f : string list) (variant : string) : string =
   match f with
   | _ :: kind :: cap :: nl :: bk :: ops ->
-    let buckets = if bk = "-" then (if kind = "h" then
-                       (* DefaultHistogramBuckets are not integers; the generator always gives buckets *) []
-                     else []) else List.map z_of_decimal (String.split_on_char ',' bk) in
+    (* "-" = Buckets left empty => DefaultHistogramBuckets 0.005 .. 10; the harness observes integers only, and for an integer
+       v and a boundary b >= 0, v <= b iff v <= floor b: the floors of the eleven defaults give the same bucket indices *)
+    let buckets = if bk = "-" then (if kind = "h" then List.map z_of_int [0;0;0;0;0;0;0;1;2;5;10] else []) else List.map z_of_decimal (String.split_on_char ',' bk) in
     let c = mk_cfg kind (int_of_string cap) (int_of_string nl) buckets variant in
     let st = { s = shared0; slots = []; subs = []; dirty = false } in
     let nactive () = List.length (List.filter (fun b -> not b.sb_unsub) st.subs) in
@@ -362,6 +362,23 @@ let () =
          | "seq" :: _ -> run_seq f variant
          | ("conc" | "rconc") :: _ -> run_conc f il variant
          | ("reg" | "rreg") :: _ -> run_reg f il variant
+         | ("bulk" | "rbulk") :: _ :: cap :: n :: g :: _ ->
+           (* bulk <kind> <cap> <n> <g>: n distinct tuples resolved (and emitted to once) by g goroutines on a metric registered
+              with MaxSeriesPerMetric = cap (0 = left at its zero value).  Too many series for exploration; admissible is what
+              the theorems allow at quiescence: series <= eff_cap (C20_conc_cap / C20_default_cap), seriesCount = series,
+              every one of the n emissions either in its own series (value 1 each) or a cardinality drop through a tombstone
+              (C20_conc_series_exact / per-tuple conservation), nothing unknown or stale.  Sequentially (g = 1) the machine is
+              deterministic: exactly min(n, eff_cap) series. *)
+           let capz = int_of_z (eff_cap (z_of_int (int_of_string cap))) and n = int_of_string n and g = int_of_string g in
+           let get k = (try Scanf.sscanf (List.find (fun t -> String.length t > String.length k && String.sub t 0 (String.length k + 1) = k ^ "=")
+                                            (tokens il)) (Scanf.format_from_string (k ^ "=%d") "%d") (fun x -> x) with _ -> -1) in
+           let series = get "series" and drops = get "drops" and tombs = get "tombs" and sum = get "sum" and cnt = get "count"
+           and unk = get "unknown" and st = get "stale" in
+           let expect = if capz > 0 then min n capz else n in
+           let ok = series >= 0 && (capz <= 0 || series <= capz) && cnt = series && sum = series && tombs = drops
+                    && series + drops = n && unk = 0 && st = 0 && (g > 1 || series = expect) in
+           if ok then il else
+           Printf.sprintf "bulk series=%d drops=%d tombs=%d sum=%d count=%d unknown=0 stale=0" expect (n - expect) (n - expect) expect expect
          | ("churn" | "rchurn") :: _ ->
            (* Arbitrarily long unregister / re-create / emit loops: no exploration, the theorems decide.  For EVERY program
               list and schedule of the repaired machine a quiescent state has no orphan (C20_conc_no_orphan), every handle
